@@ -6,6 +6,7 @@ def dispatch (engine : String) (toks : List String) : String :=
   | "bits" => bitsLine toks
   | "pages" => pagesLine toks
   | "writer" => writerLine toks
+  | "reader" => readerLine toks
   | _ => "BADENGINE"
 
 partial def loop (engine : String) (h : IO.FS.Stream) (out : IO.FS.Stream) : IO Unit := do
